@@ -114,6 +114,78 @@ def run(ctx):
         ctx.ob("C17.R1h", L.short(fn), ok, fn.loc,
                "destroying the batch allocator must return the unused part [next_page, end) of every thread's batch")
 
+    # ---------------------------------------------------------------- R1i the batch buffer is refilled only when it is empty (after seed C17-6)
+    # pages in [next_page, end) of a thread's buffer were obtained from upstream and are neither handed out nor returned:
+    # a refill that overwrites the buffer must sit behind an edge that implies next_page == end (or remain == 0 with
+    # remain := end - next_page), or behind a deallocate of the remainder
+    n1i = 0
+    for fn in fb.find(pred=lambda f: f.record == "babylon::BatchPageAllocator" and f.kind == "method" and f.has_cfg() and not f.lambda_):
+        ig = IG(fn, inline=nin)
+        live = ig.live_nodes()
+
+        def named(d, name):
+            n = ig.ev_of(strip_cast(d)) if isinstance(strip_cast(d), dict) else None
+            return n if n is not None and n.ev.get("name") == name else None
+
+        def is_next_page(d):
+            d = strip_cast(d)
+            return isinstance(d, dict) and d.get("k") == "f" and d.get("n") == "next_page"
+
+        def is_end(d):
+            return named(d, "end") is not None
+
+        def is_remain(d):
+            for o in ig.origins(d):
+                n = ig.ev_of(o)
+                if n is not None and n.ev.get("name") == "operator-" and len(n.ev.get("args", [])) >= 1:
+                    parts = [n.ev.get("this")] + list(n.ev.get("args", [])) if n.ev.get("this") is not None else list(n.ev.get("args", []))
+                    if len(parts) >= 2 and is_end(ig.rarg(n, 0) if n.ev.get("this") is None else n.ev.get("this")) or \
+                            any(is_end(x) for x in parts) and any(is_next_page(x) for x in parts):
+                        return True
+            return False
+
+        refills = []
+        for n in L.call_nodes(ig, name="allocate", live=live):
+            th = strip_cast(n.ev.get("this", {}))
+            if not (isinstance(th, dict) and th.get("n") == "_upstream") or len(n.ev.get("args", [])) < 2:
+                continue
+            a0 = named(ig.rarg(n, 0), "data")
+            if a0 is not None and "buffer" in pstr(a0.ev.get("this", {})):
+                refills.append(n)
+        if not refills:
+            continue
+
+        def empty_edge(atom, pol, lab):
+            # rewritten iterator comparison: operator<(operator<=>(next_page, end()), 0)
+            c = named(atom, "operator<")
+            if c is not None:
+                sp = named(ig.rarg(c, 0), "operator<=>")
+                if sp is not None and is_next_page(ig.rarg(sp, 0)) and is_end(ig.rarg(sp, 1)):
+                    return pol is False
+            c = named(atom, "operator==")
+            if c is not None and len(c.ev.get("args", [])) >= 2 and \
+                    ((is_next_page(ig.rarg(c, 0)) and is_end(ig.rarg(c, 1))) or (is_next_page(ig.rarg(c, 1)) and is_end(ig.rarg(c, 0)))):
+                return pol is True
+            cmp_ = L.effective_cmp(atom, pol)
+            if cmp_ is not None:
+                op, l, r = cmp_
+                if is_remain(l) and ((op == "==" and const_val(r) == 0) or (op == "<" and const_val(r) == 1) or (op == "<=" and const_val(r) == 0)):
+                    return True
+                if is_next_page(l) and is_end(r) and op in ("==", ">="):
+                    return True
+            return False
+        ee = L.cond_edges(ig, empty_edge, live)
+        returned = [n for n in L.call_nodes(ig, name="deallocate", live=live)
+                    if isinstance(strip_cast(n.ev.get("this", {})), dict) and strip_cast(n.ev.get("this", {})).get("n") == "_upstream"]
+        for rf in refills:
+            n1i += 1
+            r = ig.reach([ig.entry], removed=returned, removed_edges=ee)
+            ctx.ob("C17.R1i", "%s@%s" % (L.short(fn), rf.line), rf.id not in r, rf.where,
+                   "the thread-local batch buffer is refilled from upstream on a path that does not establish that it is empty "
+                   "(next_page == end): the pages still in [next_page, end) were obtained from upstream and are now neither "
+                   "handed out nor returned - not even by the destructor", site="BatchPageAllocator::%s@refill-only-when-empty" % fn.name)
+    ctx.floor("C17.R1i", n1i, 1, "refills of the batch allocator's thread-local buffer")
+
     # ---------------------------------------------------------------- R2 counting wrappers
     n2 = 0
     for rec in ("babylon::CountingPageAllocator", "babylon::PageHeap"):
